@@ -140,6 +140,17 @@ func genMigFile(rng *rand.Rand, pkg string) (legacy, fresh string) {
 		if rng.Intn(2) == 0 {
 			w(nl)
 		}
+	} else if rng.Intn(2) == 0 {
+		// a legacy marker comment as the LAST line of the file (a dangling comment after the declarations), with or
+		// without a line terminator after it
+		indent := []string{"", "\t", "  \t"}[rng.Intn(3)]
+		body := []string{"required", "gt=1", "cel=value == 1 + 2"}[rng.Intn(3)]
+		w(nl)
+		lb.WriteString(indent + "// +govalid:" + body)
+		nb.WriteString(indent + "//govalid:" + body)
+		if rng.Intn(3) == 0 {
+			w(nl)
+		}
 	}
 	return lb.String(), nb.String()
 }
@@ -172,6 +183,13 @@ func migCorpus(pkg string) [][2]string {
 			h + t("\t//govalid:maxlength=10\n\t//govalid:maxlength=20\n\tA string\n")},
 		{h + "//govalid:gt=1\n// +govalid:gt=5\n" + t("\tB int\n"),
 			h + "//govalid:gt=1\n//govalid:gt=5\n" + t("\tB int\n")},
+		// the file ends in a legacy marker comment without a final newline (LF and CRLF files)
+		{h + t("\t// +govalid:required\n\tA string\n") + "\n// +govalid:required",
+			h + t("\t//govalid:required\n\tA string\n") + "\n//govalid:required"},
+		{"package " + pkg + "\r\n\r\ntype T struct {\r\n\t// +govalid:gt=1\r\n\tB int\r\n}\r\n\r\n  \t// +govalid:cel=value == 1 + 2",
+			"package " + pkg + "\r\n\r\ntype T struct {\r\n\t//govalid:gt=1\r\n\tB int\r\n}\r\n\r\n  \t//govalid:cel=value == 1 + 2"},
+		{h + t("\t//govalid:required\n\tA string\n") + "// +govalid:required",
+			h + t("\t//govalid:required\n\tA string\n") + "//govalid:required"},
 		// nested anonymous struct with markers at two indentation depths, spaces and tabs mixed
 		{h + t("\t// +govalid:required\n\tIn struct {\n\t\t  // +govalid:minlength=2\n\t\tA string\n\t}\n"),
 			h + t("\t//govalid:required\n\tIn struct {\n\t\t  //govalid:minlength=2\n\t\tA string\n\t}\n")},
